@@ -98,7 +98,7 @@ def simplify_cases(draw, tier):
     opts = {'target': target, 'cycle': (not big) and draw(st.booleans()), 'all': draw(st.integers(0, 6)) != 0}
     pk = 'dyadic' if mode == 'dyadic' else 'mixed'
     pts = draw(st.lists(E.points(n, pk), min_size=8, max_size=8))
-    if draw(st.integers(0, 5)) == 0:
+    if draw(st.integers(0, 3)) == 0:
         # one of the numbers of the system is handed over by name through the documented locals= option - also under a
         # name that the math / numpy namespaces define
         vals = []
@@ -107,6 +107,15 @@ def simplify_cases(draw, tier):
             for l_ in E.subtrees(r, 'lin'):
                 vals += [float(c) for _, c in l_[1]] + ([float(l_[2])] if l_[2] is not None else [])
         vals = [v for v in vals if v == v and abs(v) not in (0.0, 1.0) and abs(v) < 1e15]
+        dvals = []
+        for r in system:                    # numbers inside a divisor place the sign cases: preferred
+            for d_ in E.subtrees(r, 'div'):
+                dvals += [float(c_[1]) for c_ in E.subtrees(d_[2], 'const')]
+                for l_ in E.subtrees(d_[2], 'lin'):
+                    dvals += [float(c) for _, c in l_[1]] + ([float(l_[2])] if l_[2] is not None else [])
+        dvals = [v for v in dvals if v == v and abs(v) not in (0.0, 1.0) and abs(v) < 1e15]
+        if dvals and draw(st.integers(0, 3)) > 0:
+            vals = dvals
         if vals:
             style['named'] = [draw(st.sampled_from(['tau', 'e', 'pi', 'kappa', 'c_0'])), vals[draw(st.integers(0, len(vals) - 1))]]
     return dict(nvars=n, system=system, scheme=scheme, style=style, opts=opts, points=pts,
@@ -404,6 +413,15 @@ def call_simplify(case, ctx, names, variables, text):
     if case['style'].get('named'):
         kw['locals'] = {case['style']['named'][0]: float(case['style']['named'][1])}
         ctx.label('constant-through-locals:' + case['style']['named'][0])
+        if case['seed'] % 2 == 0:
+            # the same text simplified first with another value of the constant: the second call is about its own value
+            other = dict(kw); other['locals'] = {case['style']['named'][0]: float(case['style']['named'][1]) + 3.0}
+            lab.seed_rng(case['seed'] + 1)
+            try:
+                guarded_call(lambda: simplify(text, **other), _count_vars(variables, names))
+            except BaseException as e:
+                if isinstance(e, (KeyboardInterrupt, SystemExit)): raise
+            ctx.label('same-text-simplified-before-with-another-constant')
     lab.seed_rng(case['seed'])
     try:
         try:
